@@ -905,7 +905,19 @@ class XsdElement(XsdComponent, ParticleMixin,
                 }
 
             if obj not in counter.elements:
-                continue
+                if not context.source.is_lazy():
+                    continue
+
+                # With a lazy resource the tree is extended while it's processed:
+                # the cached selection could not include the latest parsed elements.
+                root_node = context.source.get_xpath_node(counter.elem)
+                xpath_context = XPathContext(root_node)
+                assert identity.selector is not None
+                counter.elements = {
+                    x for x in identity.selector.token.select_results(xpath_context)
+                }
+                if obj not in counter.elements:
+                    continue
 
             if xsd_element in identity.elements:
                 selectors = identity.elements[xsd_element]
